@@ -331,6 +331,50 @@ pub fn drive(header: &str, run_fn: &str) {
         if outs.iter().any(|o| *o != outs[0]) {
             stats.differing_outputs += 1;
         }
+        // the trajectory: the same call with max_iter = 0, 1, .., max_iter - 1 (pool 4, once each) stops with the
+        // assignments the longer run has after that many outer iterations; the model's trace must show them
+        let mut prefix_coq: Vec<String> = Vec::new();
+        let mut prefix_json: Vec<String> = Vec::new();
+        if model {
+            for mi in 0..max_iter {
+                let (pts2, ws2, p2) = (pts.clone(), ws.clone(), p0.clone());
+                let res = guarded(4, Duration::from_secs(120), move || {
+                    let mut p = p2;
+                    let mut km = coupe::KMeans {
+                        imbalance_tol,
+                        delta_threshold: delta,
+                        max_iter: mi,
+                        max_balance_iter,
+                        erode,
+                        hilbert,
+                        mbr_early_break: early,
+                    };
+                    if d == 2 {
+                        let v: Vec<coupe::Point2D> = pts2.iter().map(|q| coupe::Point2D::new(q[0], q[1])).collect();
+                        km.partition(&mut p, (&v[..], &ws2[..])).unwrap();
+                    } else {
+                        let v: Vec<coupe::Point3D> = pts2.iter().map(|q| coupe::Point3D::new(q[0], q[1], q[2])).collect();
+                        km.partition(&mut p, (&v[..], &ws2[..])).unwrap();
+                    }
+                    p
+                });
+                match res {
+                    Guarded::Done(p) => {
+                        prefix_coq.push(format!("IOk {}", coq_nlist(p.iter().map(|x| *x as u128))));
+                        prefix_json.push(json_usizes(&p));
+                    }
+                    Guarded::Panic(_) => {
+                        prefix_coq.push("IPanic".to_string());
+                        prefix_json.push("\"panic\"".to_string());
+                    }
+                    Guarded::Hang => {
+                        stats.hangs += 1;
+                        prefix_coq.push("IHang".to_string());
+                        prefix_json.push("\"hang\"".to_string());
+                    }
+                }
+            }
+        }
         if model {
             stats.model_cases += 1;
         }
@@ -346,7 +390,7 @@ pub fn drive(header: &str, run_fn: &str) {
             None => "None".to_string(),
         };
         let coq = format!(
-            "mkKM {} ([{}] : list (list N)) {} {} {} {} {} {} {} {} {} {} {} {} {} [{}]",
+            "mkKM {} ([{}] : list (list N)) {} {} {} {} {} {} {} {} {} {} {} {} {} [{}] [{}]",
             d,
             pts_coq.join(";"),
             coq_bits(&ws.iter().map(|x| x.to_bits()).collect::<Vec<_>>()),
@@ -362,7 +406,8 @@ pub fn drive(header: &str, run_fn: &str) {
             coq_bool(model),
             coq_bool(exact),
             coq_bool(contract),
-            impls_coq.join(";")
+            impls_coq.join(";"),
+            prefix_coq.join(";")
         );
         let params = format!(
             "\"max_iter\":{max_iter},\"max_balance_iter\":{max_balance_iter},\"imbalance_tol\":{imbalance_tol:?},\"delta_threshold\":{delta:?},\"erode\":{erode},\"hilbert\":{hilbert},\"mbr_early_break\":{early}"
@@ -378,8 +423,9 @@ pub fn drive(header: &str, run_fn: &str) {
             None => String::new(),
         };
         let json = format!(
-            "{{\"alg\":\"kmeans\",\"stream\":{stream},{params},{input},\"model\":{model},\"exact\":{exact},\"contract\":{contract},\"impl\":[{}]{kfj}}}",
-            impls_json.join(",")
+            "{{\"alg\":\"kmeans\",\"stream\":{stream},{params},{input},\"model\":{model},\"exact\":{exact},\"contract\":{contract},\"impl\":[{}],\"prefix\":[{}]{kfj}}}",
+            impls_json.join(","),
+            prefix_json.join(",")
         );
         let key = format!("{params}|{input}");
         let distinct = {
